@@ -515,8 +515,12 @@ def check_nonschema(lang, mod, name, o, label, ops, opy, spec, params, rep, R, w
         rep.check(ok, R['nonschema'], w, key0 + ':bracket-guard', '%s: Y\\Y is produced only for an opening quote/bracket on the left' % name,
                   '%s: produces Y\\Y without pinning the left input to LQU/LRB' % name)
     if lang == 'ja' and label == 'SSEQ':
-        want = {(('cmp', 'in', N(X), N('_possible_root_categories')), True), (('cmp', 'in', N(Y), N('_possible_root_categories')), True)}
-        ok = want <= set(atoms) and got == ('in', Y)
+        # the list by its name, or (when the walker resolved the module constant) by its entries
+        tables = {a[3] for a, pol_ in atoms if pol_ and a[0] == 'cmp' and a[1] == 'in' and a[2] in (N(X), N(Y))}
+        is_roots = lambda t_: t_ == N('_possible_root_categories') or (
+            t_[0] in ('list', 'tuple') and t_[1] and all(e_[0] == 'call' and e_[1] == A(N('Category'), 'parse') for e_ in t_[1]))
+        ok = len(tables) == 1 and is_roots(next(iter(tables))) and \
+            {a[2] for a, pol_ in atoms if pol_ and a[0] == 'cmp' and a[1] == 'in' and a[3] in tables} >= {N(X), N(Y)} and got == ('in', Y)
         rep.check(ok, R['nonschema'], w, key0 + ':sseq-guard', '%s: sentence sequencing joins two root categories and returns the right one' % name,
                   '%s: SSEQ is not guarded by membership of both inputs in the root-category list, or does not return the right input' % name)
 
